@@ -32,7 +32,13 @@ def main():
     def fire(kind, where):
         log({'proc': state['proc'], 'fired': kind, 'at': where})
         if kind == 'raise':
-            raise RuntimeError(f'injected fault at {where}')
+            # the class of the failure is not under the tool's control either: a programming error, an I/O error, memory exhaustion
+            import errno, zlib
+            cls = (fault or {}).get('exc') or ['RuntimeError', 'OSError', 'ValueError', 'MemoryError'][zlib.crc32(where.encode()) % 4]
+            log({'proc': state['proc'], 'exception_class': cls})
+            if cls == 'OSError':
+                raise OSError(errno.EIO, f'Input/output error (injected fault at {where})')
+            raise {'RuntimeError': RuntimeError, 'ValueError': ValueError, 'MemoryError': MemoryError}[cls](f'injected fault at {where}')
         if kind == 'exit':
             os._exit(1)
         if kind == 'kill':
